@@ -12,6 +12,18 @@ CHECKS = {
  'C18': dict(cat='proof', tech='Rocq proof (glob matcher = declarative Matches relation; first-match, default direction, directory-rule, rooted-pattern and parse theorems for arbitrary rule lists; selection predicate) + correspondence with libc fnmatch, the repo fnmatch.c, filter_* direct calls and list/check/fix on generated trees',
              text='The include/exclude decision procedure is proved against its declarative meaning for all rule lists and paths; the matcher and filters are executed against libc and the real elem.c on ~60k generated cases per run and against the real binary on generated configurations and trees with an independent tree walk as oracle.',
              ref='4/C18'),
+ 'C06': dict(cat='proof', tech='Rocq proof (inductive invariant MapOK/ParOK of the sync-loop model for all states, file-system contents, read faults and stop points; save normalisation; reachability) + one-step command-level correspondence of the sync loop + independent map/parity oracles after every command of generated histories',
+             text='The invariant "every all-BLK stripe has parity encoding blocks that hash to the recorded hashes, and the block map is well formed" is proved inductive over load/sync/save rounds of the faithful sync model (parity-write faults excluded and refuted separately); the model is replayed against the real sync on every generated history and an independent decoder + GF reference recompute every synced stripe after every real command.',
+             ref='4/C06'),
+ 'C15': dict(cat='proof', tech='Rocq proof (plan selection: bad always, full/new/bad plans, percentage quota, age limit, oldest-first with tie rule; honest bookkeeping; eventual coverage by default scrubs) + command-level correspondence under a steered clock',
+             text='Selection and bookkeeping theorems hold for arbitrary info arrays; the model is compared with hundreds of real scrub runs per check (limits, processed set, every info word afterwards, data/parity untouched).',
+             ref='4/C15'),
+ 'C17': dict(cat='proof', tech='Rocq proof (split addressing bijection, no straddling, read-after-write/resize/reopen, fill maximality, chsize: only the last used split grows, refinement to a single flat file for any history) + unit correspondence with parity.c and twin-array command-level runs',
+             text='Addressing and resize theorems for all split lists and histories; the model runs against the real parity.c (included in the driver) and the real binary on twin arrays whose split concatenation must equal the single-file parity.',
+             ref='4/C17'),
+ 'C20': dict(cat='proof', tech='Rocq proof (tag escaping inverse and separator-free, log line print/parse round trip, list exactness and order, dup iff equal hashes, status counters, terminal framing) + unit correspondence on all 1- and 2-byte strings + command-level list/dup/status/pool on adversarial names',
+             text='Escaping and report functions are proved for all byte strings/states; the escapers are executed against support.c on 130k cases and the reports of the real binary are parsed by the extracted model parser and compared with an independent tree walk.',
+             ref='4/C20'),
  'C03': dict(cat='proof', tech='Rocq proof (MDS of the 6x251 Cauchy and 3x251 power matrices by polynomial root counting in MathComp; Gauss-Jordan without pivoting never meets a zero pivot; combination enumerator and sorting networks) + unit correspondence of raid_rec/raid_data/raid_check/raid_scan in all decoder families against the known original stripe',
              text='All 3.8e11 minors are settled by theorems, not enumeration; the decoder/validator models are executed against the real raid/*.c (int8, ssse3, avx2, dispatcher) on exhaustive small geometries and boundary-aimed large ones, the oracle being the original stripe.',
              ref='4/C03'),
